@@ -26,6 +26,8 @@ RULES = {
               "depends on the loop counter",
     "C17-B1": "unless the target is custom the border vertices are ordered by extract_border_cycle(self.mesh); the boundary is initialised for "
               "self._bnd_mode; the circle places vertex i of n = len(boundary_vertices) at angle 2*pi*i/n, i in range(n), U from the real and V from the imaginary part",
+    "C17-W1": "border order follows border edges: extract_border_cycle leaves the start through the head of the sorted neighbour list and scans "
+              "forward with first match (or tail / backward); the sorting contract puts the corner-less border neighbour first",
     "C17-H1": "interior coordinates solve L[free,free] x = -L[free,border] x_border, with free = interior vertices, the border index list that "
               "orders x_border, and the scalar Laplacian (no connection)",
     "C17-S1": "the per-corner and the per-vertex branch store (U[i], V[i]) over enumerate(free) and (Ubnd[i], Vbnd[i]) over enumerate(border), "
@@ -40,6 +42,7 @@ def run(ctx):
     b1_border(ctx, facts)
     h1_system(ctx, facts)
     s1_siblings(ctx, facts)
+    w1_border_walk(ctx)
 
 
 # ------------------------------------------------------------------ facts about run()
@@ -647,3 +650,13 @@ def s1_siblings(ctx, facts):
               "flat_mesh: per-vertex coordinates are not read at uvs[v], components 0 and 1",
               f"found key `{au.src(kv) if kv is not None else None}`", note="flat_mesh: vertex key v")
     fl.require(8)
+
+
+# ------------------------------------------------------------------ C17-W1
+BORD = "processing.border"
+
+
+def w1_border_walk(ctx):
+    fn = ctx.repo.func(BORD, "extract_border_cycle")
+    H.check_walk_orientation(ctx, "C17-W1", BORD, fn)
+    H.check_sort_contract(ctx, "C17-W1")
